@@ -96,7 +96,7 @@ def run(ctx):
     ctx.check("R2-pure", where, me.get("_packs_at_load") == {atom(nm) for nm, d, a, m in rows if a} and set(me.get("_names")) == {nm for nm, d, a, m in rows if m}, "_diff_pack_names does not modify _names/_packs_at_load")
 
     # ---- R3 -----------------------------------------------------------------
-    fn, g, where = fn_cfg(ctx, PR, f"{COLL}._clear_obsolete_packs")
+    fn, g, where = fn_cfg(ctx, PR, f"{COLL}._clear_obsolete_packs", roles={"files": ("assign", "~.*\\.list_dir\\(.*\\)"), "filename": ("for", "{files}"), "name": ("assign", "osutils.splitext({filename})", 0)})
     dels = need(where, calling(g, attr={"delete", "delete_tree", "rmdir"}), "delete call")
     k2_unreachable(ctx, "R3-preserve-guard", where, g, {"name in preserve": True}, dels, "a file whose pack name is in `preserve` is never deleted")
     pres = [n for n in walk_own(fn) if isinstance(n, ast.Compare) and norm(n) == "name in preserve"]
